@@ -244,7 +244,8 @@ _GS = {}
 
 def grammar_sentences(repo, version):
     """Programs derived from the grammar file of `version`: one per automaton arc of every rule reachable from file_input and
-    one per (arc, rule that uses the arc's rule) -- every construct of the language in every context (C06's generator)."""
+    one per (arc, rule that uses the arc's rule) and one per pair of consecutive arcs -- every construct of the language in
+    every context, every two steps of a rule in sequence (C06's generator)."""
     if version not in _GS:
         from harness import grammar_oracle as GO
         g = GO.spec_grammar(repo, version)
@@ -252,7 +253,8 @@ def grammar_sentences(repo, version):
         import itertools
         out = []
         seen = set()
-        for _, tree in itertools.chain(dv.sentences(['file_input']), dv.sentences_in_sites(['file_input'])):
+        for _, tree in itertools.chain(dv.sentences(['file_input']), dv.sentences_in_sites(['file_input']),
+                                       dv.sentences_pairs(['file_input'])):
             text = GO.render(tree, 0)[0]
             if text not in seen:
                 seen.add(text)
